@@ -613,6 +613,16 @@ type search struct {
 	maxH     uint64
 	metaKeys []string
 	depth    int
+	cfg      map[string]any // how the alphabet was put together (goes into the evidence)
+}
+
+func relSearch(name string, depth int, full, axis, crash []uint64, crashAxisOnly bool) search {
+	crashOn := "every save shape"
+	if crashAxisOnly {
+		crashOn = "the signature-axis shapes"
+	}
+	return search{name, relAlphabet(full, axis, crash, crashAxisOnly), 2, []string{"d"}, depth, map[string]any{
+		"heights_with_all_shapes": full, "heights_with_signature_axis_shapes_only": axis, "heights_with_crash_in_save": crash, "crash_in_save_applies_to": crashOn}}
 }
 
 // replayable history: which search, and the action indices.
@@ -626,13 +636,17 @@ func TestCheck(t *testing.T) {
 	maxH := vf.Pick(r, uint64(2), uint64(3))
 	metaKeys := vf.Pick(r, []string{"d", "last-submitted-header-height", "rhb/1/h"},
 		[]string{"d", "l", "last-submitted-header-height", "last-submitted-data-height", "rhb/1/h", "rhb/1/d"})
-	relFull := vf.Pick(r, []uint64{1}, []uint64{1, 2})
-	relAxis := vf.Pick(r, []uint64{2}, nil)
-	relCrash := []uint64{1}
-	relCrashAxisOnly := vf.Pick(r, true, false)
 	searches := []search{
-		{"base", alphabet(maxH, metaKeys), maxH, metaKeys, vf.Pick(r, 5, 6)},
-		{"relations", relAlphabet(relFull, relAxis, relCrash, relCrashAxisOnly), 2, []string{"d"}, vf.Pick(r, 3, 3)},
+		{"base", alphabet(maxH, metaKeys), maxH, metaKeys, vf.Pick(r, 5, 6), map[string]any{"heights": maxH, "metadata_keys": metaKeys}},
+	}
+	if !r.Thorough() {
+		// every shape on height 1, the signature axis on height 2, crashes inside the signature-axis saves of height 1
+		searches = append(searches, relSearch("relations", 3, []uint64{1}, []uint64{2}, []uint64{1}, true))
+	} else {
+		// every shape on both heights, crashes inside the signature-axis saves of both heights
+		searches = append(searches, relSearch("relations", 3, []uint64{1, 2}, nil, []uint64{1, 2}, true))
+		// every shape on height 1 with a crash inside every one of them, the signature axis on height 2
+		searches = append(searches, relSearch("relations-crash", 3, []uint64{1}, []uint64{2}, []uint64{1}, false))
 	}
 	r.Assume = []string{
 		"datastore contract: a single Put/Delete and one Batch.Commit are atomic and durable (go-datastore/badger), modelled by the logging KV double",
@@ -685,7 +699,7 @@ func TestCheck(t *testing.T) {
 			}
 			if len(hist) == 3 || len(hist) == sp.depth {
 				r.Sample(strings.Join(res.trace, " ; "))
-				if sp.name == "relations" {
+				if strings.HasPrefix(sp.name, "relations") {
 					mu.Lock()
 					if len(relSamples) < 6 && hist[0] != hist[1] && hist[1]%7 == 3 {
 						relSamples = append(relSamples, strings.Join(res.trace, " ; "))
@@ -716,24 +730,25 @@ func TestCheck(t *testing.T) {
 			}
 		}
 		perSearch[sp.name] = map[string]any{"depth": st.DepthDone, "alphabet": len(sp.acts), "save_actions": nSave, "crash_in_save_actions": nCrash,
-			"heights_read": sp.maxH, "states": st.States, "transitions": st.Transitions, "states_per_level": st.PerLevel, "fixpoint": fix}
+			"heights_read": sp.maxH, "states": st.States, "transitions": st.Transitions, "states_per_level": st.PerLevel, "fixpoint": fix, "alphabet_config": sp.cfg}
 	}
 	sort.Strings(relSamples)
 	r.Finish(vf.Coverage{
 		Evaluations: totTrans, DistinctNontrivial: int64(r.DistinctOutcomes()), States: totStates, Transitions: totTrans,
-		Rule: "two explicit-state searches, each over every operation history up to its depth bound, executed on a fresh real DefaultStore and compared getter by getter " +
+		Rule: "separate explicit-state searches (base, relations; thorough adds relations-crash), each over every operation history up to its depth bound over its alphabet, executed on a fresh real DefaultStore and compared getter by getter " +
 			"(block, whole signed header, signature by height; block and signature by hash; height, state, metadata) with a map model after every history. " +
 			"base: save block h×{same,same-hash-other-signature,other-hash} with signature argument = header.Signature, set height, update state, set metadata, reopen, " +
 			"crash before the k-th durable write of a save/metadata/state write then reopen. " +
 			"relations: saves whose ARGUMENTS are spelled out — header ∈ {data hash A, data hash B, the no-transactions hash} × header.Signature ∈ {empty,P,Q} × signature argument ∈ {empty,P,Q} " +
 			"(equal / different / empty, both ways) × data ∈ {txs A without metadata, txs A, txs B, no txs without metadata (empty value), no txs with metadata} (matching / not matching header.DataHash), " +
-			"same values at every height — as saves and resaves in any order, with reopen and with a crash before the k-th (k<4) durable write of such a save; the producer's early save " +
+			"same values at every height — as saves and resaves in any order, with reopen and with a crash before the k-th (k<4) durable write of such a save " +
+			"(which heights carry every shape or only the 18 signature-axis shapes = header.Signature × argument on one matching non-empty and one matching empty block, and which saves can crash, " +
+			"is listed per search under bounds.searches.*.alphabet_config); the producer's early save " +
 			"(previous signature in the header, empty argument, data without metadata) followed by the final save (both signatures equal, metadata set) is one of the length-2 histories. " +
 			"Histories are merged when the durable key/value image and the in-memory fields of the store object (reflection hook; none today) are identical; " +
-			"distinct = distinct images over both searches; states/transitions = sums over both searches",
+			"distinct = distinct images over all searches; states/transitions = sums over the searches",
 		Exhaustive: exhaustive, Caps: caps,
 		Bounds: map[string]any{"heights": maxH, "metadata_keys": metaKeys, "searches": perSearch,
-			"relations_heights_all_shapes": relFull, "relations_heights_signature_axis_only": relAxis, "relations_heights_crash_in_save": relCrash, "relations_crash_on_signature_axis_shapes_only": relCrashAxisOnly,
 			"shapes_per_height": len(allShapes()), "signature_axis_shapes": len(axisShapes())},
 		Extra: map[string]any{"relations_samples": relSamples},
 	})
